@@ -65,6 +65,8 @@ def check(run: Run) -> None:
             add(s2, "corpus:" + lay)
         add(s.replace("\n", "\r"), "corpus:cr")
         add(s.replace("x", "é").replace("a", "ü"), "corpus:nonascii")
+    for s in ("\ufeffx = 1\n", "\ufeffy = f'{a = }'\n"):   # a leading byte order mark: the file entry point decodes the same text
+        add(s, "bom")
     for s in corpus.invalid_seeds() + [h["src"] for h in corpus.harvested()[::9] if h["mode"] == "exec"]:
         add(s, "invalid_or_harvested")
         add(s.replace("\n", "\r\n"), "invalid_or_harvested:crlf")
